@@ -255,6 +255,80 @@ type NestRep struct {
 	U  []uint64
 }
 `},
+	// three levels of repeated groups, two sibling leaves in the innermost
+	// one (repetition level 3; the second leaf is not the first of its group)
+	{Name: "rep3", Type: "Rep3", Src: `
+type R3Leaf struct {
+	A int32
+	B string
+	C *int64
+}
+
+type R3Mid struct {
+	Leaves []R3Leaf
+	M      *int32
+}
+
+type R3Top struct {
+	Mids []R3Mid
+}
+
+type Rep3 struct {
+	ID   int64
+	Tops []R3Top
+}
+`},
+	// one leaf opens several new groups of different repetition types: an
+	// optional group whose first child is a required group whose first child
+	// is a required group; a repeated group whose first child is a required group
+	{Name: "ochain", Type: "OChain", Src: `
+type OCIn struct {
+	X *int32
+	Y string
+}
+
+type OCReq struct {
+	In OCIn
+	Z  int32
+}
+
+type OCWrap struct {
+	Req OCReq
+	T   *string
+}
+
+type OCL struct {
+	In OCIn
+	K  int32
+}
+
+type OChain struct {
+	ID   int32
+	Wrap *OCWrap
+	L    []OCL
+	Tail int32
+}
+`},
+	// write side only (C02, C03): an optional group whose first child is a
+	// repeated group.  The generated *reader* is wrong for this chain - the
+	// known C05 finding shape=O(P(o)) - so C01 does not use it.
+	{Name: "ochainw", Type: "OChainW", Src: `
+type OWItem struct {
+	W *int32
+	V int64
+}
+
+type OWOuter struct {
+	Items []OWItem
+	Note  *string
+}
+
+type OChainW struct {
+	ID    int32
+	Outer *OWOuter
+	Tail  int32
+}
+`},
 	// unusual but legal column names: one a prefix of another, differing only
 	// in case, Go keywords, non-ASCII, punctuation, leading digit, a space
 	{Name: "oddnames", Type: "OddNames", Src: `
